@@ -117,6 +117,9 @@ SHAPES = [
     ("in-macro", "[a, b].map(x, f(x))[1]", ["a", "b"], 2, lambda v: _f(v["b"])),
     ("in-cond", "true ? f(a) : f(b)", ["a", "b"], None, lambda v: _f(v["a"])),
     ("in-or", "f(a) > 0 || f(b) > 0", ["a", "b"], None, lambda v: ("bool", z3.Or(_f(v["a"]) > 0, _f(v["b"]) > 0))),
+    ("in-or3", "f(a) > 0 || f(b) > 0 || f(c) > 0", ["a", "b", "c"], None, lambda v: ("bool", z3.Or(_f(v["a"]) > 0, _f(v["b"]) > 0, _f(v["c"]) > 0))),
+    ("in-and", "f(a) > 0 && f(b) > 0", ["a", "b"], None, lambda v: ("bool", z3.And(_f(v["a"]) > 0, _f(v["b"]) > 0))),
+    ("macro-or", "[a, b].map(x, f(x) > 0 || x > 0)[1]", ["a", "b"], None, lambda v: ("bool", z3.Or(_f(v["b"]) > 0, v["b"] > 0))),
 ]
 STYLES = [("list", "def"), ("list", "nested"), ("dict", "def"), ("dict", "nested"), ("dict", "lambda"), ("dict", "object"), ("list", "object")]
 
@@ -200,6 +203,14 @@ def _call_harness(shape, style, runner):
             obs.append(Ob(f"{tag}/result@{runner}", tm(r) == exp, note="the call yields the host function's result on the evaluated arguments", tags=tags))
         if ncalls is not None:
             obs.append(Ob(f"{tag}/once-per-call-site@{runner}", z3.BoolVal(len(CALLS) == ncalls), note=f"{len(CALLS)} invocations, expected {ncalls}", tags=tags))
+        else:
+            # inside || and ?: a call site may be skipped, but none is reached twice and the first operand's is reached
+            per_site = {}
+            for _, args in CALLS:
+                k = id(args[0]) if args else None
+                per_site[k] = per_site.get(k, 0) + 1
+            obs.append(Ob(f"{tag}/at-most-once-per-call-site@{runner}", z3.BoolVal(bool(CALLS) and max(per_site.values()) == 1),
+                          note=f"invocations per call site: {sorted(per_site.values())}", tags=tags))
         if sid in ("global2", "method2", "global3", "method3", "global1", "method1") and CALLS:
             got = CALLS[-1][1]
             want = [vars[n] for n in names]
@@ -294,7 +305,7 @@ def tolerant(*args):
 
 # Host callables that generated code can reach as well (importable from a module evaluation.py itself imports), so that the
 # compiled runner is exercised beyond its known findings.  case -> (functions builder, [(source, spec)]) ; spec over z3 a, b, c
-REACHABLE = ["dict-sub", "list-sub", "shadow-size", "leak-list", "leak-dict", "tolerant-builtin-error", "tolerant-host-error", "builtin-error-argument"]
+REACHABLE = ["one-env-two-programs", "dict-sub", "list-sub", "shadow-size", "leak-list", "leak-dict", "tolerant-builtin-error", "tolerant-host-error", "builtin-error-argument"]
 
 
 def _reachable_harness(case, runner):
@@ -304,6 +315,35 @@ def _reachable_harness(case, runner):
     vars = {"a": A, "b": B, "c": C}
     pre = [v >= -LIM for v in vars.values()] + [v <= LIM for v in vars.values()]
     ERR = "error"
+    if case == "one-env-two-programs":
+        # handled separately below: several programs built from ONE Environment, the same names bound to different callables
+        R = celpy.InterpretedRunner if runner == "interp" else celpy.CompiledRunner
+        celpy.CELParser.CEL_PARSER = common._parsers.get(runner)
+        env = celpy.Environment(runner_class=R)
+        common._parsers[runner] = celpy.CELParser.CEL_PARSER
+        specs = [({"g": operator.neg}, "g(a) + a.g()", -2 * A), ({"g": operator.abs}, "g(a) + a.g()", 2 * z3.If(A >= 0, A, -A)), ([operator.neg], "neg(a)", -A),
+                 ({"g": operator.pos, "size": operator.neg}, "g(a) + size(a)", z3.IntVal(0)), ({"size": operator.abs}, "size(a)", z3.If(A >= 0, A, -A))]
+        built1 = []
+        for fns, src, want in specs:
+            try:
+                built1.append((src, want, env.program(env.compile(src), functions=fns), None))
+            except Exception as ex:  # noqa: BLE001
+                built1.append((src, want, None, ex))
+
+        def run1(vals):
+            b = {"a": ct.IntType(mk(SInt, A, vals["a"]))}
+            obs = []
+            for rnd in (0, 1):  # evaluate them interleaved, twice
+                for i, (src, want, prog, err) in enumerate(built1):
+                    if prog is None:
+                        obs.append(Ob(f"C14/reachable/program-construction@{runner}", z3.BoolVal(False), note=f"`{src}`: {type(err).__name__}: {err}"[:160], tags={"runner": runner, "case": case}))
+                        continue
+                    kd, r = common.outcome(lambda: prog.evaluate(dict(b)))
+                    obs.append(Ob(f"C14/this-program-only/own-functions@{runner}", (tm(r) == want) if kd == "value" else z3.BoolVal(False),
+                                  note=f"program {i} `{src}` of one Environment (round {rnd}): {kd} {str(r)[:60]}", tags={"runner": runner, "case": case}))
+            return obs
+        return Harness(id=f"C14/reachable/{case}@{runner}", vars={"a": A}, pre=[A >= -LIM, A <= LIM], run=run1,
+                       witness=lambda vals: {"check": "c14.one_env", "args": enc({"runner": runner, "vals": vals})}, max_paths=40)
     if case == "dict-sub":
         fns, progs = {"f": operator.sub}, [("f(a, b)", A - B), ("a.f(b)", A - B), ("f(f(a, b), c)", A - B - C), ("a.f(b).f(c)", A - B - C), ("f(a, f(b, c))", A - (B - C)),
                                           ("[a, b].map(x, x.f(c))[1]", B - C), ("f(a, b) > 0 || f(b, a) >= 0", ("bool", z3.BoolVal(True)))]
